@@ -129,9 +129,10 @@ def Equiv (a b : Table) : Prop := ∀ id c, a.load id c = b.load id c
 
 end Table
 
-/-- a result as the specification sees it: which error is immaterial, only that it is one. -/
-def Res.toSpec : Res → Res
-  | .stored ok (some _) => .stored ok (some .other)
+/-- a result as the specification sees it: Store's boolean, what a read returned; which error an
+operation reported is immaterial (only that a read failed). -/
+def Res.proj : Res → Res
+  | .stored ok _ => .stored ok none
   | .fail _ => .fail .other
   | r => r
 
@@ -789,6 +790,16 @@ def ddbGet (d : Ddb) (env : Env) (table : String) (key : Item) (consistent : Opt
         | some p => .ok (some p)
         | none => .error .validation
 
+/-- the items of one partition with their sort keys -/
+def Ddb.rowsFor (d : Ddb) (h : String) (items : List Item) : List (Int × Item) :=
+  items.filterMap fun it =>
+    match d.keyOf it with
+    | some (h', c) => if h' = h then some (c, it) else none
+    | none => none
+
+/-- `ScanIndexForward`: ascending by sort key when true (the default), descending when false -/
+def pairLt (asc : Bool) (a b : Int × Item) : Bool := if asc then decide (a.1 < b.1) else decide (b.1 < a.1)
+
 def mapProject (items : List Item) (proj : String) (names : List (String × String)) : Option (List Item) :=
   items.mapM fun it => projectItem it proj names
 
@@ -806,12 +817,8 @@ def ddbQuery (d : Ddb) (env : Env) (table : String) (keyCond : String) (names : 
       match resolveName lhs names, itemGet values (String.ofList (trimWs rhs)) with
       | some n, some (.s h) =>
         if n ≠ d.hashKey then .error .validation else
-        let rows := (d.view consistent env.lag).filterMap fun it =>
-          match d.keyOf it with
-          | some (h', c) => if h' = h then some (c, it) else none
-          | none => none
-        let asc := forward.getD true
-        let sorted := isort (fun (a b : Int × Item) => if asc then decide (a.1 < b.1) else decide (b.1 < a.1)) rows
+        let rows := d.rowsFor h (d.view consistent env.lag)
+        let sorted := isort (pairLt (forward.getD true)) rows
         let limited := match limit with | some l => sorted.take l.toNat | none => sorted
         match mapProject (limited.map (·.2)) proj names with
         | some items => .ok items
